@@ -14,6 +14,7 @@ from .explorer import targets_of
 STRATS = {
     "build": ("build",), "bfs": ("bfs", None, None, None), "dfs": ("dfs", None, None, None), "scc": ("scc", True),
     "block": ("block", True, None, True), "aseeds": ("aseeds", None), "minskip": ("min", None, None, True),
+    "aseedsskip": None,   # expand_attractor_seeds(size_limit=14) then skip_remaining: overlapping skip nodes, larger candidate lists (defect D13)
     "succskip": None,  # expand the root, then skip_to_minimal on every stub in id order (new node ids follow the solver's answer order)
 }
 
@@ -24,6 +25,8 @@ def full_dump(net, strat, with_control=True):
     if strat == "succskip":
         sd.node_successors(0, compute=True)
         ret = [sd.skip_to_minimal(i) for i in list(sd.stub_ids())]
+    elif strat == "aseedsskip":
+        ret = [sd.expand_attractor_seeds(size_limit=14), sd.skip_remaining()]
     else:
         sd, ret = apply(sd, STRATS[strat])
     out = {"ret": ret, "nodes": [], "edges": [], "seeds": {}, "sets": {}}
@@ -48,6 +51,9 @@ def full_dump(net, strat, with_control=True):
     return json.dumps(out, sort_keys=True, default=str)
 
 
+OVERLAP_MAA = [("u", ("k", "depth_overlap"), ("k", "maa3")), ("u", ("k", "depth_overlap"), ("k", "maa_16555679"))]
+
+
 def batch(name):
     K = U.kernel()
     if name == "small":
@@ -57,7 +63,7 @@ def batch(name):
         specs += [("p4", a, b) for a, b in U.P4_pairs(True)[::1500]]
         return specs
     if name == "big":
-        return [("k", k) for k, n in K.items() if n.n > 4]
+        return [("k", k) for k, n in K.items() if n.n > 4] + OVERLAP_MAA
     raise ValueError(name)
 
 
